@@ -15,6 +15,10 @@ import (
 type sym struct {
 	t *smt.Term
 	k types.BasicKind
+	// intOrig != nil: this float64 is the exact image of that 64-bit signed integer term
+	// (|value| <= 2^53 proven by the solver); min/ceil/floor/compare/convert-back are then done
+	// on the integer and the floating-point theory is not needed.
+	intOrig *smt.Term
 }
 
 func (s *sym) String() string { return fmt.Sprintf("sym<%d:t%d>", s.k, s.t.ID) }
@@ -250,6 +254,22 @@ func (i *interpreter) symBinop(fr *frame, op token.Token, tx, ty types.Type, x, 
 	a := i.term(x)
 	if float {
 		b := i.term(y)
+		if ao, bo := intOrigOf(c, x), intOrigOf(c, y); ao != nil && bo != nil {
+			switch op {
+			case token.LSS:
+				return mkval(c.Cmp(smt.OSlt, ao, bo), types.Bool)
+			case token.LEQ:
+				return mkval(c.Cmp(smt.OSle, ao, bo), types.Bool)
+			case token.GTR:
+				return mkval(c.Cmp(smt.OSlt, bo, ao), types.Bool)
+			case token.GEQ:
+				return mkval(c.Cmp(smt.OSle, bo, ao), types.Bool)
+			case token.EQL:
+				return mkval(c.Cmp(smt.OEq, ao, bo), types.Bool)
+			case token.NEQ:
+				return mkval(c.Not(c.Cmp(smt.OEq, ao, bo)), types.Bool)
+			}
+		}
 		switch op {
 		case token.ADD:
 			return mkval(c.FBin(smt.OFAdd, a, b), k)
@@ -415,9 +435,24 @@ func (i *interpreter) symConv(fr *frame, tdst, tsrc types.Type, x *sym) value {
 	case fs && fd:
 		return x
 	case fd:
-		return mkval(c.FFromInt(x.t, ss), kd)
+		r := mkval(c.FFromInt(x.t, ss), kd)
+		if rs, ok := r.(*sym); ok {
+			var wide *smt.Term
+			if ss {
+				wide = c.SExt(x.t, 64)
+			} else if ws < 64 {
+				wide = c.ZExt(x.t, 64)
+			}
+			if wide != nil && i.ex.provenExact(wide) {
+				rs.intOrig = wide
+			}
+		}
+		return r
 	case fs:
 		_, sd, _, _ := kindInfo(kd)
+		if x.intOrig != nil && wd == 64 && sd {
+			return mkval(x.intOrig, kd)
+		}
 		// Go leaves out-of-range float->int conversions implementation-defined; the check
 		// makes such a path visible instead of guessing.
 		i.ex.noteFloatToInt(fr, x.t, wd, sd)
@@ -634,4 +669,17 @@ func scalarCells(a []value) bool {
 		}
 	}
 	return true
+}
+
+// intOrigOf returns the exact integer a float64 value stands for, if known.
+func intOrigOf(c *smt.Ctx, v value) *smt.Term {
+	switch x := v.(type) {
+	case *sym:
+		return x.intOrig
+	case float64:
+		if x == float64(int64(x)) && x > -9e15 && x < 9e15 {
+			return c.BV(uint64(int64(x)), 64)
+		}
+	}
+	return nil
 }
